@@ -312,13 +312,34 @@ def mangle_rules(facts, rep):
         top = top[1]
     if good and not (top[0] == "call" and top[1].endswith("str>::replace")):
         good = top is rep_calls[0] or top == rep_calls[0]
+    NAME = ("field", ("arg", 1, "self"), "file_name")
+
+    def _cut_by_split(e):
+        """`name.split('\\0').next().unwrap_or_default()` (or unwrap / unwrap_or("") / expect: split always yields a first piece) and
+        `name.split_once('\\0')` with the name itself as the no-NUL alternative: the part of the name before the first NUL, spelled
+        without an index"""
+        if e[0] == "call" and re.search(r"Option::<T>::(unwrap_or_default|unwrap|expect|unwrap_or)$", e[1]) and e[2]:
+            n_ = e[2][0]
+            if n_[0] == "call" and n_[1].endswith("Iterator::next") and n_[2] and n_[2][0][0] == "call" and re.search(r"str>::split$", n_[2][0][1]):
+                sp = n_[2][0][2]
+                return len(sp) == 2 and sp[0] == NAME and sp[1] == ("const", "char", 0)
+        al = alts(e)
+        if len(al) == 2 and NAME in al:
+            o_ = [x for x in al if x != NAME][0]
+            # ok(split_once(name, '\0')).0
+            inner = [x for x in walk(o_) if x[0] == "call" and re.search(r"str>::split_once$", x[1])]
+            return bool(inner) and inner[0][2][0] == NAME and inner[0][2][1] == ("const", "char", 0) and o_[0] == "field" and o_[2] == "0"
+        return False
     if good:
         src = rep_calls[0][2][0]
-        a = alts(src[2][0]) if src[0] == "call" and src[1].endswith("to_string") else alts(src)
+        if src[0] == "call" and re.search(r"to_string$|to_owned$|String::from$|Into::into$", src[1]) and src[2]:
+            src = src[2][0]
+        a = alts(src)
         trunc = [x for x in a if x[0] == "call" and x[1].endswith("Index::index")]
         whole = [x for x in a if x == ("field", ("arg", 1, "self"), "file_name")]
-        good = len(trunc) == 1 and len(whole) == 1
-        if good:
+        by_split = _cut_by_split(src)
+        good = (len(trunc) == 1 and len(whole) == 1) or by_split
+        if good and not by_split:
             rng = dict(trunc[0][2][1][3]) if trunc[0][2][1][0] == "agg" else {}
             good = trunc[0][2][0] == ("field", ("arg", 1, "self"), "file_name") and rng.get("start", ("const", "usize", 0)) == ("const", "usize", 0) and \
                 set(rng) <= {"start", "end"} and trunc[0][2][1][1] in ("adt:Range", "adt:RangeTo") and rng.get("end") is not None and rng["end"][0] == "ok" and rng["end"][1][0] == "call" and rng["end"][1][1].endswith("str>::find") and \
@@ -357,7 +378,7 @@ def mangle_rules(facts, rep):
                     arg = pu[0][2][1]
                     okp = any(x[0] == "call" and x[1].endswith("Iterator::next") for x in walk(arg)) and \
                         (any(x[0] == "variant" and x[2] == "Normal" for x in walk(arg)) or any(x[0] == "call" and x[1].endswith("as_os_str") for x in walk(arg))) and \
-                        not any(x[0] == "call" and not re.search(r"Iterator::next$|Path::components$|as_os_str$|IntoIterator::into_iter$|Path::new$|Deref::deref$|AsRef|str>::replace$|to_string$|Index::index$|str>::find$", x[1]) for x in walk(arg))
+                        not any(x[0] == "call" and not re.search(r"Iterator::next$|Path::components$|as_os_str$|IntoIterator::into_iter$|Path::new$|Deref::deref$|AsRef|str>::replace$|to_string$|Index::index$|str>::find$|str>::split$|str>::split_once$|Option::<T>::(unwrap_or_default|unwrap|expect|unwrap_or)$|String::as_str$", x[1]) for x in walk(arg))
                 good = good and okp
             else:
                 good = good and not pu
@@ -371,7 +392,8 @@ def mangle_rules(facts, rep):
         ok &= rep.check(good, rule, "pipeline", where(f, f.span), "loop over components(): push exactly the Normal components, verbatim, onto an empty PathBuf that is returned",
                         "the sanitiser loop does not push exactly the Normal components onto the returned, initially empty PathBuf")
         # the loop walks the components() iterator
-        it = calls_matching(f, r"Iterator::next$")
+        body_ = set().union(*[b_ for _, b_ in f.loops()]) if f.loops() else set()
+        it = [(b_, t_) for b_, t_ in calls_matching(f, r"Iterator::next$") if b_ in body_]      # (a `split(..).next()` outside the loop is the NUL cut)
         good = len(it) == 1 and any(x[0] == "call" and x[1].endswith("Path::components") for x in walk(norm(ex.operand(it[0][1]["args"][0], (it[0][0], None)))))
         ok &= rep.check(good, rule, "filter=Normal", where(f, f.span), "the loop draws from components() only", "the loop does not iterate the components() of the prepared name")
         for k in ("fold=push(as_os_str)", "fold-init", "returns-fold"):
